@@ -338,6 +338,17 @@ fn au_case(rng: &mut Rng, idx: usize) -> String {
                 got.extend(rb.slice()[..k].iter().map(|v| v.to_bits() as u64));
                 rb.consume(k);
             }
+            if pos == len {
+                // all input written: deterministic flush (a skipped random drain is not "no progress")
+                let _ = enc.work();
+                if let Err(e) = dec.work() {
+                    return Err(e.to_string());
+                }
+                let (rb, _) = o.read_buf().unwrap();
+                let k = rb.len();
+                got.extend(rb.slice()[..k].iter().map(|v| v.to_bits() as u64));
+                rb.consume(k);
+            }
             if got.len() == before && pos == len {
                 idle += 1;
             } else {
